@@ -310,6 +310,26 @@ def shuffled(t, rng):
     return t2
 
 
+def class_objects_are_leaves():
+    """C02: an object is a node only if ITS exact type is registered; class objects (even namedtuple / struct-sequence /
+    registered classes) sitting in a tree are therefore leaves"""
+    out = []
+    for name, cls in (('namedtuple-class', U.NT2), ('structseq-class', U.SS2), ('registered-class', U.CA), ('builtin-class', dict), ('type', type)):
+        for nil in (False, True):
+            for ns in ('', 'a'):
+                tree = {'cls': cls, 'args': (1, [cls])}
+                try:
+                    leaves, spec = optree.tree_flatten(tree, none_is_leaf=nil, namespace=ns)
+                    ok = len(leaves) == 3 and leaves[1] is cls and leaves[2] is cls and optree.tree_is_leaf(cls, none_is_leaf=nil, namespace=ns) \
+                        and optree.all_leaves([cls, 1], none_is_leaf=nil, namespace=ns) and list(optree.tree_iter(tree, none_is_leaf=nil, namespace=ns))[2] is cls \
+                        and optree.tree_flatten_with_path(tree, none_is_leaf=nil, namespace=ns)[1][2] is cls
+                    err = ''
+                except Exception as ex:  # noqa: BLE001
+                    ok, err = False, U.exc_class(ex)
+                out.append({'op': 'class-object-leaf', 'name': name, 'nil': nil, 'ns': ns, 'ok': bool(ok), 'err': err})
+    return out
+
+
 def c02_laws(t, cfg, ctx, obj):
     """C02 consequences, observed on the real code: permutation invariance, None removal, predicate refinement, replace_nones"""
     import random
@@ -483,6 +503,12 @@ def main():
         d = json.loads(l)
         d['fams'] = fams
         lines.append(json.dumps(d))
+    if 'classobj' in fams:
+        init()
+        with open(outp, 'w') as fh:
+            for c in class_objects_are_leaves():
+                fh.write(json.dumps(c, separators=(',', ':')) + '\n')
+        return
     if 'depth' in fams:
         init()
         with open(outp, 'w') as fh:
